@@ -4,7 +4,9 @@ go 1.22.12
 
 require (
 	ariga.io/atlas v0.0.0
+	github.com/hashicorp/hcl/v2 v2.13.0
 	github.com/mattn/go-sqlite3 v1.14.24
+	github.com/zclconf/go-cty v1.14.4
 )
 
 require (
@@ -14,10 +16,9 @@ require (
 	github.com/bmatcuk/doublestar v1.3.4 // indirect
 	github.com/go-openapi/inflect v0.19.0 // indirect
 	github.com/google/go-cmp v0.6.0 // indirect
-	github.com/hashicorp/hcl/v2 v2.13.0 // indirect
 	github.com/mitchellh/go-wordwrap v0.0.0-20150314170334-ad45545899c7 // indirect
-	github.com/zclconf/go-cty v1.14.4 // indirect
 	github.com/zclconf/go-cty-yaml v1.1.0 // indirect
+	golang.org/x/mod v0.17.0 // indirect
 	golang.org/x/text v0.21.0 // indirect
 )
 
